@@ -113,6 +113,16 @@ def main(argv):
     aud = core.audit(mod.LEAN_MODULES) if b["proofs_ok"] else {"ok": False, "theorems": [], "bad": [], "stderr": "not audited: build failed"}
     if b["proofs_ok"] and not aud["ok"]:
         broken.append({"obligation": "axiom audit", "detail": aud["bad"] or aud["stderr"]})
+    if tier == "thorough" and b["proofs_ok"]:
+        # independent re-check of the compiled theorem modules by Lean's external checker
+        import subprocess
+
+        lc = subprocess.run(["lake", "env", "leanchecker", *mod.LEAN_MODULES], cwd=core.LEAN, stdout=subprocess.PIPE, stderr=subprocess.STDOUT, text=True)
+        leanchecker = {"cmd": "lake env leanchecker " + " ".join(mod.LEAN_MODULES), "exit": lc.returncode, "tail": lc.stdout[-300:]}
+        if lc.returncode != 0:
+            broken.append({"obligation": "leanchecker", "detail": lc.stdout[-1500:]})
+    else:
+        leanchecker = None
     hits = core.source_grep()
     if hits:
         broken.append({"obligation": "source grep (sorry/axiom/native_decide/...)", "detail": hits[:10]})
@@ -197,6 +207,7 @@ def main(argv):
             "chunks": agg["chunks"],
             "exhaustive": bool(getattr(mod, "EXHAUSTIVE", {}).get(tier, False)),
             "broken_obligations": broken,
+            "leanchecker": leanchecker,
             "search_evaluations": searched,
         },
         "assumptions": list(getattr(mod, "ASSUMPTIONS", [])),
